@@ -93,6 +93,7 @@ bool Alarm::disable() {
   if (state_ == State::kRunning) {
     if (onDisable()) {
       state_ = State::kInited;
+      target_utc_sec_ = 0;  //! 否则再次 enable() 时会以旧目标为起点计算，跳过尚未触发的那个时间点
       return sp_timer_ev_->disable();
     }
   }
